@@ -2,7 +2,7 @@
 C17 — executable model of task/backend/scheduler/treescheduler.go (TreeScheduler).
 
 Transcribed (same branches, same order of side effects):
-  * `Item.Less`                        → `less`      (ordered by `when`, then `id`)
+  * `Item.Less`                        → `less`      (field order regenerated from the source: Kap/Gen/C17.lean)
   * btree Delete / ReplaceOrInsert      → `qdelete` / `qreplace` on a list kept in `less` order
   * `TreeScheduler.Schedule`            → `schedule`  (Next error ⇒ onErr + return err; timer re-arm only when
                                                       `s.when` is zero or after the new `when`; delete the old
@@ -33,6 +33,7 @@ Abstracted:
   * times are whole seconds (`Int`), as in `Item` (`when`, `next`, `Offset` are int64 seconds), except `s.when` and the
     timer deadline, which are milliseconds (a fractional offset reaches them through `nt.Add(sch.Offset())`).
 -/
+import Kap.Gen.C17
 namespace Kap.C17
 
 /-! ### association lists keyed by `Nat` (Go maps: `nextTime`, and the per-worker channel occupancy) -/
@@ -56,9 +57,22 @@ structure Item where
   off : Int      -- `Offset`
 deriving DecidableEq, Repr, Inhabited
 
-/-- `Item.Less`: `it.when < it2.when || (it.when == it2.when && it.id < it2.id)`. -/
-def less (a b : Item) : Bool :=
-  decide (a.whn < b.whn) || (decide (a.whn = b.whn) && decide (a.id < b.id))
+/-- Value of a field of `Item` (an `unknown` field, i.e. source the extractor did not recognise, has no meaning:
+no lemma covers it). -/
+def fld : Gen.Fld → Item → Int
+  | .when, it => it.whn
+  | .id, it => it.id
+  | .next, it => it.next
+  | .offset, it => it.off
+  | .unknown _, _ => 0
+
+def lexLess : List Gen.Fld → Item → Item → Bool
+  | [], _, _ => false
+  | f :: r, a, b => decide (fld f a < fld f b) || (decide (fld f a = fld f b) && lexLess r a b)
+
+/-- `Item.Less`, with the field order REGENERATED from the source on every run (`Gen.lessKeys`; in the snapshot
+`it.when < it2.when || (it.when == it2.when && it.id < it2.id)`, i.e. `[when, id]`). -/
+def less (a b : Item) : Bool := lexLess Gen.lessKeys a b
 
 /-- btree key equality: neither is less. -/
 def same (a b : Item) : Bool := !less a b && !less b a
@@ -160,7 +174,12 @@ def visit (E : Env) (skip : List Nat) (a : PAcc) (it : Item) : PAcc :=
     | none => { a1 with evs := Ev.onErr it.id :: a1.evs }     -- dropped
     | some n => { a1 with toIns := a1.toIns ++ [{ it with next := n, whn := n + it.off }] }
 
-def isDue (now : Int) (it : Item) : Bool := decide (it.next + it.off ≤ now)
+/-- The due test of `iterator`, REGENERATED from the source (`Gen.dueSum`, `Gen.dueStop`; in the snapshot
+`if time.Unix(it.next+it.Offset, 0).After(ts) { return false }`, i.e. due iff next + Offset ≤ now). -/
+def isDue (now : Int) (it : Item) : Bool :=
+  match Gen.dueStop with
+  | .after => decide ((Gen.dueSum.map (fun f => fld f it)).foldl (· + ·) 0 ≤ now)
+  | .unknown _ => false
 
 def applyDel (p : List (Nat × Int) × List Item) (d : Item) : List (Nat × Int) × List Item :=
   (adel p.1 d.id, qdelete p.2 d)
